@@ -178,3 +178,19 @@ Fixpoint lldp_serve (frames : list (list N)) : outcome (list N) :=
     | Ok _ => do tl <- lldp_serve r ; Ok (1 :: tl)
     end
   end.
+
+(* ---- well-formed TLVs: what LldpTlv::to_wire writes such that from_wire reads
+   it back (spec-level predicate used by the "still decodes well-formed frames"
+   theorems; the End TLV is added by the frame) --------------------------------- *)
+Definition wf_tlv (t : tlv) : bool :=
+  match t with
+  | TEnd => false                                   (* the terminator is added by the frame *)
+  | TChassis st id | TPort st id => (1 <=? st) && (st <=? 7) && (lenN id <? 255)
+  | TTtl v => v <? 65536
+  | TStr ty s => ((ty =? 4) || (ty =? 5) || (ty =? 6)) && utf8_ok s && (lenN s <? 256)
+  | TCap a b => (a <? 65536) && (b <? 65536)
+  | TMgmt _ _ _ _ _ => false                        (* ManagementAddress::to_wire writes a wrong length octet *)
+  | TOrg oui st v => (lenN oui =? 3) && (lenN v <? 252)
+  | TUnknown ty v => (9 <=? ty) && (ty <? 127) && (lenN v <? 256)
+  end.
+Definition wf_tlvs (ts : list tlv) : bool := forallb wf_tlv ts.
